@@ -18,6 +18,8 @@ pub struct CovCase {
     pub delim: &'static str,
     pub recs: Vec<Vec<u8>>,
     pub crecs: Option<Vec<Vec<u8>>>,
+    /// the counting input is written as FASTQ (the records as FASTA): the two files need not have the same format
+    pub cfq: bool,
 }
 
 pub fn gen_case(rng: &mut Rng, i: usize, maxrecs: usize) -> CovCase {
@@ -67,7 +69,7 @@ pub fn gen_case(rng: &mut Rng, i: usize, maxrecs: usize) -> CovCase {
         for _ in 0..3 {
             recs.push(mk1(b'G'));
         }
-        return CovCase { k: 17, bs: 2, bc: 5, norm: false, threads: 3, mem: 6.0, delim: " ", recs, crecs: None };
+        return CovCase { k: 17, bs: 2, bc: 5, norm: false, threads: 3, mem: 6.0, delim: " ", recs, crecs: None, cfq: false };
     }
     if i % 10 == 8 {
         // multiplicities that are exact multiples of an awkward bin size (49, 98, 103, 107: 1/bs is not exact in binary)
@@ -75,7 +77,7 @@ pub fn gen_case(rng: &mut Rng, i: usize, maxrecs: usize) -> CovCase {
         let mult = bs * (1 + rng.below(3) as usize);
         let crecs = vec![vec![b'A'; mult + 2], b"ACGTTGCA".to_vec()];     // AAA occurs exactly `mult` times
         let recs = vec![b"AAAAA".to_vec(), b"ACGTT".to_vec(), b"TTTT".to_vec()];
-        return CovCase { k: 3, bs, bc: 5, norm: i % 20 == 8, threads: 2, mem: 6.0, delim: ",", recs, crecs: Some(crecs) };
+        return CovCase { k: 3, bs, bc: 5, norm: i % 20 == 8, threads: 2, mem: 6.0, delim: ",", recs, crecs: Some(crecs), cfq: false };
     }
     let cn = rng.range(0, maxrecs as u64) as usize;
     let crecs = if i % 3 == 1 { Some(mk(rng, cn, i + 4)) } else { None };
@@ -88,6 +90,7 @@ pub fn gen_case(rng: &mut Rng, i: usize, maxrecs: usize) -> CovCase {
         mem: if big { 6.0 } else { *rng.pick(&[0.5f64, 1.0, 6.0]) },
         delim: *rng.pick(&[" ", ",", "\t"]),
         recs,
+        cfq: crecs.is_some() && i % 2 == 1,
         crecs,
     }
 }
@@ -95,10 +98,24 @@ pub fn gen_case(rng: &mut Rng, i: usize, maxrecs: usize) -> CovCase {
 /// runs one case; returns (hook log, Ok(vectors path) or crash)
 pub fn run_case(c: &CovCase, dir: &str) -> (Vec<Event>, Result<String, String>) {
     let inp = format!("{}/cov_in.fa", dir);
-    let cinp = format!("{}/cov_cin.fa", dir);
+    let cinp = format!("{}/cov_cin.{}", dir, if c.cfq { "fq" } else { "fa" });
     write_fasta(&inp, &c.recs);
     if let Some(cr) = &c.crecs {
-        write_fasta(&cinp, cr);
+        if c.cfq {
+            use std::io::Write;
+            let mut f = std::io::BufWriter::new(std::fs::File::create(&cinp).unwrap());
+            for (i, s) in cr.iter().enumerate() {
+                // (bio's FASTQ reader refuses a record without bases: give those one ambiguous byte - it adds no k-mer)
+                let s: Vec<u8> = if s.is_empty() { b"N".to_vec() } else { s.iter().map(|&b| if b == b'@' || b == b'+' { b'N' } else { b }).collect() };
+                writeln!(f, "@c{}", i).unwrap();
+                f.write_all(&s).unwrap();
+                f.write_all(b"\n+\n").unwrap();
+                f.write_all(&vec![b'I'; s.len()]).unwrap();
+                f.write_all(b"\n").unwrap();
+            }
+        } else {
+            write_fasta(&cinp, cr);
+        }
     }
     let od = format!("{}/cov_out", dir);
     let _ = std::fs::remove_dir_all(&od);
@@ -194,13 +211,18 @@ pub fn trace(seed: u64, runs: usize, dir: &str, maxrecs: usize, what: &str) {
 /// file being its own counting input; rows judged from the runs alone (RunLength.tla)
 pub fn big(seed: u64, dir: &str) {
     let mut rng = Rng::new(seed);
-    for (i, &(k, bs, bc)) in [(4usize, 1000usize, 32usize), (12, 3, 100_000), (31, 70_000, 4), (7, 1, 5)].iter().enumerate() {
-        let plans: Vec<Vec<(u8, u64)>> = vec![
+    for (i, &(k, bs, bc)) in [(4usize, 1000usize, 32usize), (12, 3, 100_000), (31, 70_000, 4), (7, 1, 5), (5, 9, 6), (5, 9, 6)].iter().enumerate() {
+        // the last two runs (raw and normalised): one record puts more than 2^24 windows into a single bin
+        let plans: Vec<Vec<(u8, u64)>> = if i >= 4 {
+            vec![vec![(1, 40 + rng.below(9)), (0, 17_000_000 + rng.below(1000)), (2, 60)], vec![(0, 50), (3, 50)]]
+        } else {
+            vec![
             vec![(0, 140_000 + rng.below(500)), (1, 66_000 + rng.below(500)), (4, 31 + rng.below(5)), (2, 31 + rng.below(50)), (3, 70_000 + rng.below(50))],
             vec![(3, 31 + rng.below(10)), (0, 31 + rng.below(10))],
             vec![(4, 40)],
             vec![(2, 68_000 + rng.below(10)), (1, 31)],
-        ];
+        ]
+        };
         let recs: Vec<Vec<u8>> = plans
             .iter()
             .map(|p| {
@@ -214,7 +236,7 @@ pub fn big(seed: u64, dir: &str) {
             })
             .collect();
         let norm = i % 2 == 1;
-        let c = CovCase { k, bs, bc, norm, threads: 1 + rng.below(8) as usize, mem: 6.0, delim: " ", recs, crecs: None };
+        let c = CovCase { k, bs, bc, norm, threads: 1 + rng.below(8) as usize, mem: 6.0, delim: " ", recs, crecs: None, cfq: false };
         let (_, res) = run_case(&c, dir);
         let rle: Vec<Vec<Vec<u64>>> = plans.iter().map(|p| p.iter().map(|&(c, n)| vec![c as u64, n]).collect()).collect();
         match &res {
